@@ -77,12 +77,6 @@ Qed.
 
 (* the ids the user starts; a refresh timer that fires starts an operation (with an id from the shared
    counter) only when a refresh is due: `started_by` of the elaborated event decides *)
-Definition ustarted_by (u : uev) : option N :=
-  match u with
-  | UCmd q _ _ | UPutToPeers q _ _ _ _ _ _ _ | UFire q _ _ _ => Some q
-  | UEv e => started_by e
-  | _ => None
-  end.
 Definition ustarted (q : N) (us : list uev) : nat :=
   length (filter (fun u => opt_is (ustarted_by u) q) us).
 
